@@ -108,7 +108,7 @@ def run(tier, seed):
     paths = {}
     for e in inits.values():
         paths[e["path"]] = paths.get(e["path"], 0) + 1
-    vf.write_evidence(PROP, tier, seed, "differential_testing", {
+    vf.write_evidence(PROP, tier, seed, "model_checking", {
         "states": states, "transitions": states,
         "traces_validated_against_impl": cnt.get("files", 0),
         "samples": [scenarios[0]],
